@@ -3,6 +3,7 @@ package dbsim
 import (
 	"bytes"
 	"encoding/hex"
+	"encoding/json"
 	"fmt"
 	"iter"
 	"math/rand/v2"
@@ -439,6 +440,28 @@ func Battery(txn statedb.ReadTxn, tbl statedb.Table[*Obj], m *TableModel, probes
 	}
 	for _, o := range all {
 		h.Str(o.ID).Int(int64(o.N)).Int(int64(o.Rev))
+	}
+	// the JSON dump of the transaction is a read like any other
+	if msg == "" {
+		var buf bytes.Buffer
+		var dump map[string][]struct {
+			ID []byte
+			N  uint64
+		}
+		if err := txn.WriteJSON(&buf, tbl.Name()); err != nil {
+			fail("writejson", "WriteJSON: %v", err)
+		} else if err := json.Unmarshal(buf.Bytes(), &dump); err != nil {
+			fail("writejson", "WriteJSON output does not parse: %v", err)
+		} else {
+			rows := dump[tbl.Name()]
+			ok := len(rows) == len(objs) && len(dump) == 1
+			for i := 0; ok && i < len(rows); i++ {
+				ok = string(rows[i].ID) == string(objs[i].O.ID) && rows[i].N == objs[i].O.N
+			}
+			if !ok {
+				fail("writejson", "WriteJSON(%s) lists %d objects %v, the table has %d (All: %s)", tbl.Name(), len(rows), rows, len(objs), fmtObs(all))
+			}
+		}
 	}
 	for _, p := range probes {
 		obs, _ := p.run(txn, tbl)
